@@ -12,7 +12,8 @@ HANG_IS_VIOLATION = True
 ASSUMPTIONS = [
     'the real pygments.lexer.RegexLexer driver runs under the same instrumentation (its re.compile(...).match becomes the '
     'exact regex model); the delegated third-party lexers (JsonLexer, DiffLexer) are replaced by lossless identity stubs '
-    'during symbolic runs and are real in the replay',
+    'during symbolic runs (the diff sub-lexer stub is line based: a chunk without a final newline ends in Error tokens, '
+    'as with the real DiffLexer) and are real in the replay',
     'text fully symbolic up to the stated length; rule-header prefixes + symbolic tails; UTF-8 writer output with one '
     'symbolic content section that contains no "#." sequence',
     'termination = the tokenisation finishes within the per-path time limit',
@@ -36,10 +37,22 @@ def _lexer():
         import pygments.lexers.data as D
         import pygments.lexers.diff as DF
 
+        from pygments.token import Error
+
         def ident(self, text, *a, **k):
             yield 0, Text, text
+
+        def line_based(self, text, *a, **k):
+            # DiffLexer's contract as far as this lexer is concerned: every rule of it consumes a whole line including
+            # its newline, so a chunk handed over without a final newline ends in one Error token per character
+            t = lift(text)
+            i = t.rfind('\n')
+            if i >= 0:
+                yield 0, Text, text[:i + 1]
+            for j in range(i + 1, len(t.el)):
+                yield j, Error, text[j:j + 1]
         D.JsonLexer.get_tokens_unprocessed = ident
-        DF.DiffLexer.get_tokens_unprocessed = ident
+        DF.DiffLexer.get_tokens_unprocessed = line_based
         from pydiffx.integrations.pygments_lexer import DiffXLexer
         _LEXER.append(DiffXLexer)
     return _LEXER[0]
@@ -152,6 +165,60 @@ def ob_file(ctx, N):
     return verdict(ctx, props, witness=wit, sample=lambda m: dict(wit(m), headers=got))
 
 
+DIFF_LINES = ['--- a/f\n', '+++ b/f\n', '@@ -1,2 +1,2 @@\n', ' ctx\n', '-old line\n', '+new line', '\n', '+last\n']
+
+
+def ob_diff_window(ctx, W):
+    """a realistic diff section (written by the real writer) in which W symbolic ASCII characters end one of its lines:
+    lossless, no Error token (the diff sub-lexer is line based), headers tagged"""
+    from pydiffx.writer import DiffXWriter
+    from pygments.token import Error, Name
+    import re
+    from sx.core import sym_bytes
+    w_ = ctx.choose(1, W, 'w')
+    win = sym_bytes(ctx, 'c', w_)
+    for e in win.el:
+        ctx.assume(z3.And(z3.UGE(e, 32), z3.ULT(e, 127)))
+    at = ctx.pick('line', [3, 5])        # after ' ctx' or after '+new line'
+    parts = ()
+    for i, ln in enumerate(DIFF_LINES):
+        if i == at:
+            ln = ln.rstrip('\n')
+            parts += tuple(ln.encode()) + tuple(win.el) + ((10,) if DIFF_LINES[i].endswith('\n') else ())
+        else:
+            parts += tuple(ln.encode())
+    d = mk_seq(parts, bytes)
+    st = SymStream()
+    w = DiffXWriter(st)
+    w.new_change()
+    w.new_file()
+    w.write_meta({'path': 'f'})
+    w.write_diff(d)
+    w.new_file()
+    w.write_meta({'path': 'g'})
+    text = lift(st.value()).decode('utf-8')
+    tl = lift(text)
+    for i in range(len(tl.el) - 1):
+        c = tl.at((35, 46), i)
+        if c is False or c is True:
+            continue
+        ctx.assume(neg(c))
+    wit = lambda m: {'kind': 'file', 'text': model_str(m, text)}
+    try:
+        toks = _tokens(text)
+    except PathTimeout:
+        return viol('nontermination', wit(ctx.model()))
+    except Exception as e:
+        return viol('raised:%s' % type(e).__name__, wit(ctx.model()))
+    props = _lossless_props(text, toks)
+    props.append(('no-error-token', not any(t is Error for i, t, v in toks)))
+    plain = ''.join(chr(e) if isinstance(e, int) else '\x00' for e in tl.el)
+    exp = [m.group(1) for m in re.finditer(r'(?m)^(#\.{0,3}(?:diffx|preamble|meta|change|file|diff):)', plain)]
+    got = [v for i, t, v in toks if t is Name.Tag and isinstance(v, str) and re.fullmatch(r'#\.{0,3}[a-z]+:', v)]
+    props.append(('header-tokens', got == exp))
+    return verdict(ctx, props, witness=wit, sample=lambda m: dict(wit(m), headers=got))
+
+
 def obligations(tier):
     quick = tier == 'quick'
     NF = 7 if quick else 9
@@ -166,6 +233,10 @@ def obligations(tier):
         Ob('writer-files', ob_file, dict(N=3 if quick else 4), must_reach=['DiffXWriter._write_section_header'], path_timeout=30,
            desc='UTF-8 files produced by the real writer with one symbolic content section without "#.": lossless, no '
                 'Error token, Name.Tag header tokens == the file\'s headers in order', bounds={'content_len': [1, 3 if quick else 4]}),
+        Ob('diff-lines[window]', ob_diff_window, dict(W=3 if quick else 4), must_reach=['DiffXWriter._write_section_header'],
+           path_timeout=30,
+           desc='a realistic unified diff written by the real writer, 1..%d symbolic printable characters ending one of its '
+                'lines: lossless, no Error token, headers tagged' % (3 if quick else 4), bounds={'window': [1, 3 if quick else 4]}),
     ]
 
 
